@@ -280,8 +280,8 @@ Section Slots.
       split; [eapply enqueue_ping_slots; [exact (sr_cb _ _ _ _ R2)|exact E]|split; assumption]. }
     destruct (if connected d2 then enqueue_ping now d2 tmo2 else (d2, tmo2)) as [d3 tmo3].
     destruct (H3 d3 tmo3 eq_refl) as (R3 & I3 & P3).
-    pose proof (process_action_slots (Nat.mul 64 64) now d3 store tmo3 pl (e1 ++ e2) I3 (sr_cb _ _ _ _ R3) P3) as H4.
-    destruct (process_action rmatch compress sc (Nat.mul 64 64) now d3 store tmo3 pl (e1 ++ e2)) as [[[[[d4 store4] tmo4] pl4] evs]| | | |]; try exact Logic.I.
+    pose proof (process_action_slots (pa_fuel d3) now d3 store tmo3 pl (e1 ++ e2) I3 (sr_cb _ _ _ _ R3) P3) as H4.
+    destruct (process_action rmatch compress sc (pa_fuel d3) now d3 store tmo3 pl (e1 ++ e2)) as [[[[[d4 store4] tmo4] pl4] evs]| | | |]; try exact Logic.I.
     eapply SlotRel_trans; [exact R1|]. eapply SlotRel_trans; [exact R2|]. eapply SlotRel_trans; [exact R3|exact H4].
   Qed.
 End Slots.
